@@ -153,11 +153,13 @@ fn gen_inputs(r: &mut SplitMix64, methods: &[String], tier: u32) -> Inputs {
     let (start, end) = if dates_omitted {
         (None, None)
     } else {
-        let year = r.range(1600, 2399) as i32;
+        let year = if r.chance(4) { *r.pick(&[1600i32, 2399, 2000, 1900]) } else { r.range(1600, 2399) as i32 };
         let s = if r.chance(35) {
-            let (m, d) = *r.pick(&[(12u32, 31u32), (12, 25), (2, 27), (2, 28), (1, 1), (3, 1), (6, 20), (12, 20)]);
-            let y = if r.chance(50) { year - year % 4 } else { year };
-            NaiveDate::from_ymd_opt(y.max(1600), m, d).unwrap()
+            let (m, d) = *r.pick(&[(12u32, 31u32), (12, 25), (2, 27), (2, 28), (2, 29), (1, 1), (3, 1), (6, 20), (12, 20)]);
+            let y = if r.chance(50) || (m, d) == (2, 29) { year - year % 4 } else { year };
+            let y = if y < 1600 { 1600 } else { y };
+            // 29 Feb exists only in leap years (1700, 1800, ... are not)
+            NaiveDate::from_ymd_opt(y, m, d).unwrap_or_else(|| NaiveDate::from_ymd_opt(y, m, 28).unwrap())
         } else {
             NaiveDate::from_ymd_opt(year, 1, 1).unwrap() + Duration::days(r.range(0, 364))
         };
@@ -177,7 +179,27 @@ fn gen_inputs(r: &mut SplitMix64, methods: &[String], tier: u32) -> Inputs {
             (Some(s.to_string()), Some((s + Duration::days(days - 1)).to_string()))
         }
     };
-    Inputs { method, lat: fmt_f(lat_v), lon: fmt_f(lon_v), elev, gmt: fmt_f(gmt_v), start, end }
+    // other spellings of the same number (all accepted by Rust's f64 parser): "+5.5", "5.50", "05.5",
+    // "5.5e0", "5." / ".5" for integral / sub-unit values, "-0.0"
+    let respell = |r: &mut SplitMix64, v: f64| -> String {
+        let base = fmt_f(v);
+        if !r.chance(12) || !v.is_finite() {
+            return base;
+        }
+        match r.range(0, 5) {
+            0 if v >= 0.0 && !base.starts_with('-') => format!("+{base}"),
+            1 if base.contains('.') => format!("{base}0"),
+            2 if v >= 0.0 && !base.starts_with('-') => format!("0{base}"),
+            3 => format!("{base}e0"),
+            4 if v.fract() == 0.0 && !base.contains('.') => format!("{base}."),
+            5 if v != 0.0 && v.abs() < 1.0 && base.starts_with("0.") => base[1..].to_string(),
+            _ => base,
+        }
+    };
+    let lat_s = respell(r, lat_v);
+    let lon_s = respell(r, lon_v);
+    let gmt_s = respell(r, gmt_v);
+    Inputs { method, lat: lat_s, lon: lon_s, elev, gmt: gmt_s, start, end }
 }
 
 fn gen_env(r: &mut SplitMix64, base_clock: i64) -> Env {
